@@ -1,4 +1,5 @@
 import RsMatterVerif.Lemmas.BtpFair
+import RsMatterVerif.Lemmas.BtpTimed
 import RsMatterVerif.Lemmas.BtpRing
 /-!
 # C18 — BTP delivers each message intact, once and in order, or fails cleanly
@@ -92,8 +93,9 @@ theorem delivered_is_reassembly (i r : Bool) (g : Option Nat) (ops : List EOp) (
 
 /-! ## Hostile peer: protocol violations are refused -/
 
-/-- **Hostile peer, clause "refused with an error"**: a data segment that violates the protocol in
-one of the ways named by the property — wrong sequence number, window overrun, acknowledgement of
+/-- **Hostile peer, clause "refused with an error"** (⇒ direction, kept under its old name; the
+full statement is `segment_refused_iff` below): a data segment that violates the protocol in one of
+the ways named by the property — wrong sequence number, window overrun, acknowledgement of
 something that is not awaiting one, inconsistent length or flags (`Spec.mustReject`, evaluated on
 the protocol-level view `viewOf s` of the state) — is refused with `InvalidData`; the state is
 unchanged (`Except`), so by `delivered_is_reassembly` it can never reach the application. -/
@@ -102,13 +104,52 @@ theorem hostile_segment_refused (s : Session) (hs : SInv s) (h : Hdr) (hh : h.Wf
     s.processRxData h p now = .error .invalidData :=
   mustReject_refused s hs h hh hhs p now hm
 
-/-- Non-vacuity: on an established session (window 5, nothing sent yet) a stand-alone
-acknowledgement of the never-sent sequence number 77 is a violation, and so is a data segment with
-sequence number 5 when 0 is expected. -/
+/-- **`segment_refused_iff`** (one step, every state satisfying the invariant): a decoded data
+segment (`h.hs = false`) is refused with `InvalidData` **if and only if** it violates the protocol
+as specified by `Spec.mustReject` — wrong sequence number; window overrun; acknowledgement of a
+sequence number that is not among the `outstanding` most recently sent ones (`Spec.awaitingAck`,
+written from the meaning, equivalent to the code's wrap-around test by `mem_awaitingAck`);
+inconsistent flags (`Spec.badFlags`: management opcode, no flag at all, stand-alone acknowledgement
+with data, beginning+continue, short non-final segment, one-segment message not final) or length
+(`Spec.badLength`) — or the receive buffer has no room for it (`Spec.noRoom`, a resource limit, not
+a protocol violation; never the case between two well-behaved ends, `never_refused`). Otherwise the
+segment is accepted: there is no other outcome (second conjunct), in particular no other error
+kind and no panic.  Handshake segments (`h.hs = true`) are not covered by this statement
+(`process_rx_total` covers them: accepted with the invariant or a clean error). -/
+theorem segment_refused_iff (s : Session) (hs : SInv s) (h : Hdr) (hh : h.Wf) (hhs : h.hs = false)
+    (p : List Nat) (now : Nat) :
+    (s.processRxData h p now = .error .invalidData ↔
+      (Spec.mustReject (viewOf s) h p = true ∨ Spec.noRoom (ringFree s.recv.buf) h p = true)) ∧
+    ((∃ s', s.processRxData h p now = .ok s') ↔
+      (Spec.mustReject (viewOf s) h p = false ∧ Spec.noRoom (ringFree s.recv.buf) h p = false)) :=
+  segment_refused_iff_aux s hs h hh hhs p now
+
+/-- the acknowledgement clause of `Spec.mustReject` (membership in the list of sequence numbers
+awaiting an acknowledgement) is the code's test `(last_sent − ack) mod 256 < outstanding` -/
+theorem ack_clause_is_code_test (s : Session) (hs : SInv s) (a : Nat) (ha : a < 256) :
+    a ∈ Spec.awaitingAck (viewOf s) ↔ wrapSub s.send.lastSent a < s.windowSize - s.send.level :=
+  mem_awaitingAck (viewOf s) a hs.lastLt ha
+    (by show s.windowSize - s.send.level ≤ 256; have := hs.wsLe; omega)
+
+/-- Non-vacuity: on an established session (window 5, segment size 20, nothing sent yet) a
+stand-alone acknowledgement of the never-sent sequence number 77 is a violation, and so are a data
+segment with sequence number 5 when 0 is expected, a segment with beginning+continue, a
+non-final segment that does not fill the segment size, a management opcode, and an empty ENDING
+(or CONTINUE+ENDING) segment with no message in progress (accepted by the code before the fix
+`C18-orphan-ending-segment`: it took a sequence number and a window slot and delivered nothing); a well-formed
+one-segment message is not, and is accepted. -/
 example : ∃ s, (Session.fresh false false).processRx none [0x65, 0x6c, 4, 0, 0, 0, 23, 0, 5] 0 = .ok s ∧
     Spec.mustReject (viewOf s) { ack := true, ackNum := 77, seqNum := 0 } [] = true ∧
-    Spec.mustReject (viewOf s) { beg := true, fin := true, msgLen := 1, seqNum := 5 } [7] = true := by
-  exact ⟨_, rfl, by decide, by decide⟩
+    Spec.mustReject (viewOf s) { beg := true, fin := true, msgLen := 1, seqNum := 5 } [7] = true ∧
+    Spec.mustReject (viewOf s) { beg := true, cont := true, fin := true, msgLen := 1, seqNum := 0 } [7] = true ∧
+    Spec.mustReject (viewOf s) { beg := true, msgLen := 40, seqNum := 0 } [7] = true ∧
+    Spec.mustReject (viewOf s) { mgmt := true, opcode := 1, beg := true, fin := true, msgLen := 1, seqNum := 0 } [7] = true ∧
+    Spec.mustReject (viewOf s) { fin := true, seqNum := 0 } [] = true ∧
+    Spec.mustReject (viewOf s) { cont := true, fin := true, seqNum := 0 } [] = true ∧
+    Spec.mustReject (viewOf s) { beg := true, fin := true, msgLen := 1, seqNum := 0 } [7] = false ∧
+    Spec.noRoom (ringFree s.recv.buf) { beg := true, fin := true, msgLen := 1, seqNum := 0 } [7] = false ∧
+    (∃ s', s.processRxData { beg := true, fin := true, msgLen := 1, seqNum := 0 } [7] 3 = .ok s') := by
+  exact ⟨_, rfl, by decide, by decide, by decide, by decide, by decide, by decide, by decide, by decide, by decide, _, rfl⟩
 
 /-! ## Window slots and the acknowledgement deadline (session level) -/
 
@@ -208,6 +249,97 @@ theorem link_delivered_is_reassembly (ra rb : Bool) (ga gb : Option Nat) (ops : 
     (hk : ((runLink (freshLink ra rb ga gb) ops).get x).fetched[k]? = some (b, c)) :
     ∃ full, ((runLink (freshLink ra rb ga gb) ops).get x).rs.done[k]? = some full ∧ b = full.take c :=
   ((link_inv ops _ (linv_fresh ra rb ga gb) hw).get x).1.dlv k b c hk
+
+/-! ## The acknowledgement deadline, over whole runs -/
+
+theorem ackRun_link (y : Side) (ops : List Op) : ∀ m : AckMon, (ackRun y m ops).l = runLink m.l ops := by
+  induction ops with
+  | nil => intro m; rfl
+  | cons op ops ih =>
+    intro m
+    simp only [ackRun, runLink]
+    rw [ih]
+    unfold AckMon.step
+    cases m.l.step op with
+    | ok r => rfl
+    | error e => rfl
+
+/-- **`ack_within_deadline`** (run level; every state of the link, every schedule).  Observe end `y`
+along ANY schedule `ops` from ANY state `l0` of the link (time advances by `tick` only), with two
+ghost clocks (`Btp.AckMon`): `polledAt` = when `y`'s pump (`process_outgoing`) last ran, `since` =
+since when an acknowledgement has been *sendable* at `y` without interruption
+(`Session.ackable`: `pending_ack().is_some()` - something accepted and not acknowledged, and no
+complete message waiting to be fetched -, a free slot in the send window, no handshake response
+pending).  Then in the state reached, if an acknowledgement is sendable and `y` has been polled
+during the last `p` seconds, the clock is at most `max (received_at + 15 s, since) + p`: **an
+acknowledgement that can be sent never stays unsent for more than the poll period `p` after its
+15 s timer has fired** (`received_at` = the instant the LAST segment was accepted: every accepted
+segment restarts the timer, as in the code; an acknowledgement emitted earlier - stand-alone or
+piggy-backed on data, `poll_ackable` - makes `ackable` false, so "already acknowledged" is covered).
+If `y` is polled at least every `p` seconds throughout, this holds in every state of the run.
+
+The three cases in which NO acknowledgement is due, all from the code, are exactly the negation of
+`ackable`: (1) a complete message waits to be fetched (`buf_messages_ct > 0`: the acknowledgement
+is withheld as back-pressure until the application takes the message - with an application that
+never fetches, the acknowledgement is never sent and the peer's idle timeout closes the session);
+(2) the send window is exhausted (`level = 0`: the stand-alone acknowledgement needs a sequence
+number of its own; it waits for the peer's acknowledgement - between two rs-matter ends this cannot
+persist: `never_dead`, `C18_live_holds`); (3) the responder has not sent its handshake response
+yet (it goes out first, on the same poll sequence). `since` records when the last of them ended.
+("Exactly the negation of `ackable`" is a statement about the CODE's `pending_ack`; before the fix
+`C18-handshake-response-never-acked` it hid a fourth case: at an initiator `ack_level` was 0 although
+the handshake response - the responder's segment 0 - had been received, so its acknowledgement was
+never pending. The fixed `setup` counts it, and the oracle of the correspondence check demands it.) -/
+theorem ack_within_deadline (l0 : LMon) (y : Side) (ops : List Op) (p : Nat) :
+    let m := ackRun y (AckMon.init l0 y) ops
+    m.l = runLink l0 ops ∧
+    (((runLink l0 ops).get y).e.s.ackable = true → (runLink l0 ops).now ≤ m.polledAt + p →
+      ∃ u, m.since = some u ∧ u ≤ (runLink l0 ops).now ∧
+        ∀ t, ((runLink l0 ops).get y).e.s.recv.receivedAt = some t →
+          (runLink l0 ops).now ≤ max (t + ackTimeoutSecs) u + p) := by
+  intro m
+  have hl : m.l = runLink l0 ops := ackRun_link y ops _
+  refine ⟨hl, ?_⟩
+  rw [← hl]
+  intro ha hp
+  have hi : AckInv y m := ackInv_run ops (ackInv_init l0 y)
+  obtain ⟨u, hu, hle, hall⟩ := hi.ok ha
+  refine ⟨u, hu, hle, fun t ht => ?_⟩
+  rcases hall t ht with h | h
+  · have : t + ackTimeoutSecs ≤ max (t + ackTimeoutSecs) u := Nat.le_max_left _ _
+    omega
+  · have : u ≤ max (t + ackTimeoutSecs) u := Nat.le_max_right _ _
+    omega
+
+/-- the pump step behind it (one step, every end state): polled in an `ackable` state, the end
+either emits a segment that carries the acknowledgement number `ack_seq` (and then counts
+everything as acknowledged), or emits nothing, is unchanged, and `is_ack_due` is false -/
+theorem poll_emits_ack {e : End} (ha : e.s.ackable = true) {now : Nat} {e' : End} {seg : List Nat}
+    (hok : e.processOutgoing now = .ok (e', seg)) :
+    (seg = [] ∧ e' = e ∧ e.s.isAckDue now ackTimeoutSecs = false) ∨
+    (seg ≠ [] ∧ e'.s.recv.ackLevel = 0 ∧
+      ∃ (h : Hdr) (p : List Nat), seg = h.encode ++ p ∧ h.getAck = some e.s.recv.ackSeq) :=
+  poll_ackable ha hok
+
+def ackSampleOps : List Op :=
+  [.poll .a, .deliver .b, .poll .b, .deliver .a, .send .a [1, 2, 3], .poll .a, .deliver .b, .fetch .b 100,
+   .tick 4, .poll .b, .tick 4, .poll .b, .tick 4, .poll .b]
+
+/-- Non-vacuity / a sample run (`ackSampleOps`): after the handshake `a` sends a one-segment message at time 0, `b`
+accepts it and the application fetches it: an acknowledgement is sendable at `b` since time 0,
+stamped 0.  `b` is polled every 4 s: at time 12 nothing has been sent yet (the timer has not
+fired), the hypotheses of `ack_within_deadline` hold with `p = 4` and the bound `15 + 4` is
+respected; the poll at time 16 emits the stand-alone acknowledgement (`b`'s sequence number 1,
+acknowledging 0). -/
+example :
+    ((runLink (freshLink false false none none) ackSampleOps).get .b).e.s.ackable = true ∧
+    (ackRun .b (AckMon.init (freshLink false false none none) .b) ackSampleOps).polledAt = 12 ∧
+    (ackRun .b (AckMon.init (freshLink false false none none) .b) ackSampleOps).since = some 0 ∧
+    (runLink (freshLink false false none none) ackSampleOps).now = 12 ∧
+    ((runLink (freshLink false false none none) ackSampleOps).get .b).e.s.recv.receivedAt = some 0 ∧
+    (runLink (freshLink false false none none) ackSampleOps).qba = [] ∧
+    (runLink (freshLink false false none none) (ackSampleOps ++ [.tick 4, .poll .b])).qba = [[0x08, 0, 1]] := by
+  decide
 
 /-! ## Intact, exactly once, in order -/
 
@@ -409,6 +541,145 @@ segment travels, `b` fetches exactly what was submitted. -/
 example : ((runLink (freshLink false true (some 100) (some 64))
     ([.send .a [9, 8, 7]] ++ handshakeOps ++ [.poll .a, .deliver .b, .fetch .b 2048])).b.fetched) =
     [([9, 8, 7], 2048)] := by decide
+
+/-! ## Windows outside the range two rs-matter ends negotiate
+
+All from-fresh theorems of this file (`never_refused`, `in_order_once_fresh`, `window_respected`,
+`never_dead`, `never_stuck`, `C18_live_holds`) speak about the link of two rs-matter ends, which
+negotiate a window in `[6, 79]` (`negWin_ge`; `POk.wm`: `W * mtu ≤ 1583`).  For other windows
+(a peer that is not rs-matter) only the per-end theorems (`process_rx_total`, `end_inv`,
+`delivered_is_reassembly`, `segment_refused_iff`: every window 1..255) and the theorems that
+start from an ASSUMED `Sync` / `Steady` state (`sync_step`, `in_order_once`) apply.  The examples
+below show that those assumptions are satisfiable for small windows and for window 255. -/
+
+/-- The link reached from two fresh ends when the handshake request is rewritten in flight to
+announce the window `w`: the initiator is a peer that is not rs-matter and asks for a small window
+(two rs-matter ends always negotiate a window in `[6, 79]`, `negWin_ge`; the harness does the same
+rewriting with its `hsw` operation). -/
+def smallWindowLink (w : Nat) : LMon :=
+  runLink ((runLink (freshLink false false none none) [.poll .a]).setInq .b
+    [[0x65, 0x6c, 4, 0, 0, 0, 23, 0, w]]) [.deliver .b, .poll .b, .deliver .a]
+
+/-- it satisfies the representation invariant (it is a run of the model from two fresh ends with one
+segment replaced in the queue) -/
+theorem small_window_linv (w : Nat) (hw : w < 256) : LInv (smallWindowLink w) := by
+  refine link_inv _ _ ((link_inv _ _ (linv_fresh _ _ _ _) ?_).setInq .b ?_) ?_
+  · intro op h; simp at h; subst h; trivial
+  · intro seg h; simp at h; subst h
+    intro b hb; simp at hb; omega
+  · intro op h; simp at h
+    rcases h with rfl | rfl | rfl <;> trivial
+
+/-- a link on which nothing has been submitted or received yet and nothing travels is steady -/
+theorem steady_of_idle (l : LMon) (hqab : l.qab = []) (hqba : l.qba = [])
+    (ha : l.a.e.s.handshakePending = false ∧ l.a.e.sdu = [] ∧ l.a.e.off = 0 ∧ l.a.tx = {} ∧ l.a.submitted = [] ∧ l.a.rs = {})
+    (hb : l.b.e.s.handshakePending = false ∧ l.b.e.sdu = [] ∧ l.b.e.off = 0 ∧ l.b.tx = {} ∧ l.b.submitted = [] ∧ l.b.rs = {}) :
+    Steady l := by
+  obtain ⟨a1, a2, a3, a4, a5, a6⟩ := ha
+  obtain ⟨b1, b2, b3, b4, b5, b6⟩ := hb
+  intro x
+  cases x
+  · refine ⟨a1, ⟨?_, ?_, ?_, ?_, ?_⟩, ?_, ?_⟩
+    · simp [LMon.get, a2, a4, a5]
+    · simp [LMon.get, a2, a4]
+    · simp [LMon.get, a3, a4]
+    · intro h; exact absurd a2 h
+    · intro _; exact a3
+    · show NoHs l.qab
+      rw [hqab]; intro seg h; exact absurd h List.not_mem_nil
+    · show feedAll l.b.rs l.qab = l.a.tx
+      rw [hqab, b6, a4]; rfl
+  · refine ⟨b1, ⟨?_, ?_, ?_, ?_, ?_⟩, ?_, ?_⟩
+    · simp [LMon.get, b2, b4, b5]
+    · simp [LMon.get, b2, b4]
+    · simp [LMon.get, b3, b4]
+    · intro h; exact absurd b2 h
+    · intro _; exact b3
+    · show NoHs l.qba
+      rw [hqba]; intro seg h; exact absurd h List.not_mem_nil
+    · show feedAll l.a.rs l.qba = l.b.tx
+      rw [hqba, a6, b4]; rfl
+
+/-- **`Steady` is satisfiable with window 1** (hypotheses of `in_order_once`) ... -/
+theorem small_window_steady_1 : Steady (smallWindowLink 1) ∧
+    (smallWindowLink 1).a.e.s.windowSize = 1 ∧ (smallWindowLink 1).b.e.s.windowSize = 1 ∧
+    (smallWindowLink 1).a.e.s.established = true :=
+  ⟨steady_of_idle _ (by decide) (by decide) (by decide) (by decide), by decide, by decide, by decide⟩
+
+/-- ... and with window 2 -/
+theorem small_window_steady_2 : Steady (smallWindowLink 2) ∧
+    (smallWindowLink 2).a.e.s.windowSize = 2 ∧ (smallWindowLink 2).b.e.s.windowSize = 2 ∧
+    (smallWindowLink 2).a.e.s.established = true :=
+  ⟨steady_of_idle _ (by decide) (by decide) (by decide) (by decide), by decide, by decide, by decide⟩
+
+/-- **Window 1** (not a statement about two rs-matter ends, which never negotiate it): the
+responder's only slot is taken by the handshake response; the initiator counts the response as a
+received, unacknowledged segment (`setup`, fix `C18-handshake-response-never-acked`), so its
+acknowledgement is due at once (`recv.level ≤ 1`) and goes out with the first data segment; from
+then on the two ends alternate. Messages cross in both directions. (Before the fix neither end
+ever emitted anything: the initiator's only slot is reserved for a segment that carries an
+acknowledgement, and it had none to send.) Liveness is *proved* for windows ≥ 3 only. -/
+example :
+    let l := runLink (smallWindowLink 1) [.send .a [1, 2, 3], .send .b [9], .poll .a, .poll .b, .deliver .b, .poll .b,
+      .poll .a, .deliver .a, .poll .a, .poll .b, .deliver .b, .fetch .b 100, .poll .b, .deliver .a, .fetch .a 100]
+    l.b.fetched = [([1, 2, 3], 100)] ∧ l.a.fetched = [([9], 100)] := by decide
+
+/-- window 2: messages cross in both directions -/
+example :
+    let l := runLink (smallWindowLink 2) [.send .a [1, 2, 3], .send .b [9], .poll .a, .deliver .b, .fetch .b 100, .poll .b,
+      .deliver .a, .poll .a, .deliver .b, .poll .b, .deliver .a, .fetch .a 100]
+    l.b.fetched = [([1, 2, 3], 100)] ∧ l.a.fetched = [([9], 100)] := by decide
+
+
+/-- **The cross-end invariant `Sync` is satisfiable for a window below 6** (window 2, segment size
+20): `sync_step`, `never_dead`-style reasoning and `in_order_once` apply from this state. -/
+theorem small_window_sync_2 : Sync 2 20 (smallWindowLink 2) := by
+  have hp : POk 2 20 := ⟨by omega, by omega, by omega, by omega, by omega⟩
+  refine sync_mk .b small_window_steady_2.1 hp (by decide) (by decide) ?_ ?_ ?_
+  · have := d1_init hp (some 0) 0
+    have e1 : ((smallWindowLink 2).get .b).e.s.send = { windowSize := 2, level := 2 - 1, lastSent := 0, sentAt := some 0 } := by decide
+    have e2 : ((smallWindowLink 2).get Side.b.other).e.s.recv = { level := 2 - 1, ackLevel := 1, ackSeq := 0, receivedAt := some 0 } := by decide
+    have e3 : ((smallWindowLink 2).get Side.b.other).rs = {} := by decide
+    have e4 : (smallWindowLink 2).inq Side.b.other = [] := by decide
+    have e5 : (smallWindowLink 2).inq Side.b = [] := by decide
+    rw [e1, e2, e3, e4, e5]; exact this
+  · have := d2_init hp false
+    have e1 : ((smallWindowLink 2).get Side.b.other).e.s.send = { windowSize := 2, level := 2 } := by decide
+    have e2 : ((smallWindowLink 2).get Side.b).e.s.recv = ((Session.fresh false false).setup 4 20 2 0).recv := by decide
+    have e3 : ((smallWindowLink 2).get Side.b).rs = {} := by decide
+    have e4 : (smallWindowLink 2).inq Side.b.other = [] := by decide
+    have e5 : (smallWindowLink 2).inq Side.b = [] := by decide
+    rw [e1, e2, e3, e4, e5]; exact this
+  · intro h
+    have : ((smallWindowLink 2).get Side.b).e.s.send.level = 1 := by decide
+    omega
+
+/-- `in_order_once` instantiated at a window outside `[6, 79]`: from the window-2 link, any schedule. -/
+example (ops : List Op) (hw : WfSched ops) (y : Side) (k : Nat) (b : List Nat) (c : Nat)
+    (hk : ((runLink (smallWindowLink 2) ops).get y).fetched[k]? = some (b, c)) :
+    ∃ full, ((runLink (smallWindowLink 2) ops).get y.other).submitted[k]? = some full ∧ b = full.take c :=
+  in_order_once _ (small_window_linv 2 (by omega)) small_window_steady_2.1 ops hw y k b c hk
+
+/-- A window above 79 can only arise at an rs-matter *initiator* whose peer answers with a larger
+window than was requested (`process_rx_handshake_resp` accepts every window 1..255; an rs-matter
+responder never chooses more than 79): the response is rewritten in flight to announce 255. -/
+def bigWindowLink : LMon :=
+  runLink ((runLink (freshLink false false none none) [.poll .a, .deliver .b, .poll .b]).setInq .a
+    [[0x65, 0x6c, 4, 20, 0, 255]]) [.deliver .a]
+
+/-- `LInv` and `Steady` (the hypotheses of `in_order_once`) are satisfiable with window 255 at the
+initiator (the responder keeps 79: the two ends disagree, no cross-end invariant `Sync` exists for
+this link; only the per-end theorems and `in_order_once` - under whose link semantics a refused
+segment is never skipped - apply). -/
+theorem big_window_steady : LInv bigWindowLink ∧ Steady bigWindowLink ∧
+    bigWindowLink.a.e.s.windowSize = 255 ∧ bigWindowLink.a.e.s.established = true := by
+  refine ⟨?_, steady_of_idle _ (by decide) (by decide) (by decide) (by decide), by decide, by decide⟩
+  refine link_inv _ _ ((link_inv _ _ (linv_fresh _ _ _ _) ?_).setInq .a ?_) ?_
+  · intro op h; simp at h
+    rcases h with rfl | rfl | rfl <;> trivial
+  · intro seg h; simp at h; subst h
+    intro b hb; simp at hb; omega
+  · intro op h; simp at h; subst h; trivial
 
 /-! ## No deadlock (towards delivery under a fair schedule) -/
 
@@ -639,16 +910,495 @@ theorem C18_live_partial (ra rb : Bool) (ga gb : Option Nat) (ops : List Op) (hw
       ∃ full : List Nat, (l.get y.other).submitted[k]? = some full ∧ b = full.take c) :=
   ⟨never_refused ra rb ga gb ops hw, never_stuck ra rb ga gb ops hw, in_order_once_fresh ra rb ga gb ops hw⟩
 
-/-! ## The ring buffer: the real index arithmetic refines the byte queue of the session model -/
+/-! ## The connection idle timeout (30 s)
+
+`btp.rs`: `Btp::wait_timeout` polls `Btp::timeout()` = `Session::is_timed_out(now, 30 s)`
+(`send_window.sent_at + 30 s < now`; `sent_at` = instant of our last transmission or of the last
+partial acknowledgement, `Instant::MAX` while nothing is outstanding) every 2 s; when it answers
+`true` the GATT glue ends the session.  Model: `End.timeout`, the operation `TOp.timeout x` of the
+timed link `TMon` (`Lemmas/BtpTimed.lean`): once it has fired the session is closed - the transport
+operations `Poll` / `Deliver` are no longer executed; the applications may still `Send` / `Fetch`.
+
+* Safety is unaffected: `in_order_once_timed`, `window_respected_timed`.
+* Liveness becomes "delivered, or the session is closed by the idle timeout": `C18_live_timed`.
+* Does it fire between two healthy ends?  Under a *timely* schedule (`TimelyFrom`: the clock
+  advances only when nothing travels, nothing waits to be fetched and both pumps have run, and by
+  at most 15 s at a time), from a `Timed` state (e.g. right after the handshake), window ≥ 2:
+  **never** (`timeout_never_fires`, `never_closed`): the peer holds every unacknowledged segment
+  for acknowledgement (`Tight`), its 15 s acknowledgement timer started no later than our 30 s
+  idle timer (`TDir.t2`) and fires first; every stand-alone acknowledgement is a segment that
+  must itself be acknowledged 15 s later, so the ping-pong keeps an established link alive for
+  ever.  Hence `C18_live_timely`: under a fair AND timely schedule every submitted message is
+  fetched and the session is never closed.
+  This holds for the code WITH the fix `C18-handshake-response-never-acked` (`Session::setup`: the
+  initiator counts the handshake response as a received, unacknowledged segment).  Before it the
+  responder's handshake response was acknowledged only together with a later segment of the
+  responder, `Tight` had a slack of one segment, and a responder that sent nothing for 30 s after
+  the handshake closed a healthy session (`late_first_message_example`; `corpus/C18/idle-timeout.txt` case 3 on the real code). -/
+
+theorem runT_link (tops : List TOp) : ∀ t : TMon, (runT t tops).l = runLink t.l (executed t tops) := by
+  induction tops with
+  | nil => intro t; rfl
+  | cons o os ih =>
+    intro t
+    cases o with
+    | op o =>
+      simp only [runT, executed]
+      by_cases hc : (t.closed && o.isTransport) = true
+      · have hs : t.step (.op o) = t := by simp only [TMon.step, hc, if_true]
+        rw [hs, ih]; simp only [hc, if_true]
+      · simp only [hc, Bool.false_eq_true, if_false]
+        rw [ih, runLink_cons]
+        simp only [TMon.step, hc, Bool.false_eq_true, if_false]
+    | timeout x =>
+      simp only [runT, executed]
+      rw [ih]
+      simp only [TMon.step]
+      split <;> rfl
+
+theorem executed_sub (tops : List TOp) : ∀ t : TMon, ∀ o ∈ executed t tops, TOp.op o ∈ tops := by
+  induction tops with
+  | nil => intro t o h; cases h
+  | cons o' os ih =>
+    intro t o h
+    cases o' with
+    | op o2 =>
+      simp only [executed] at h
+      split at h
+      · exact List.mem_cons_of_mem _ (ih _ o h)
+      · rcases List.mem_cons.mp h with rfl | h
+        · exact List.mem_cons_self
+        · exact List.mem_cons_of_mem _ (ih _ o h)
+    | timeout x =>
+      simp only [executed] at h
+      exact List.mem_cons_of_mem _ (ih _ o h)
+
+def WfTSched (tops : List TOp) : Prop := ∀ o, TOp.op o ∈ tops → WfOp o
+
+theorem executed_wf {tops : List TOp} (hw : WfTSched tops) (t : TMon) : WfSched (executed t tops) :=
+  fun o h => hw o (executed_sub tops t o h)
+
+theorem runT_append (a : List TOp) : ∀ (t : TMon) (b : List TOp), runT t (a ++ b) = runT (runT t a) b := by
+  induction a with
+  | nil => intro t b; rfl
+  | cons o os ih => intro t b; simp only [List.cons_append, runT]; exact ih _ _
+
+theorem step1_tick0 (l : LMon) : l.step1 (.tick 0) = l := rfl
+
+/-- as long as the session is not closed, the timed run is the run of the projected schedule -/
+theorem runT_open (f : Nat → TOp) (t : TMon) :
+    ∀ n, (runT t ((List.range n).map f)).closed = false →
+      (runT t ((List.range n).map f)).l = runF t.l (fun i => (f i).proj) n := by
+  intro n
+  induction n with
+  | zero => intro _; rfl
+  | succ n ih =>
+    intro hc
+    rw [List.range_succ, List.map_append, runT_append] at hc ⊢
+    simp only [List.map_cons, List.map_nil, runT] at hc ⊢
+    -- closed is monotone: the state before was open too
+    have hprev : (runT t ((List.range n).map f)).closed = false := by
+      cases hcl : (runT t ((List.range n).map f)).closed with
+      | false => rfl
+      | true =>
+        exfalso
+        have : ((runT t ((List.range n).map f)).step (f n)).closed = true := by
+          cases f n with
+          | op o => simp only [TMon.step]; split <;> exact hcl
+          | timeout x => simp only [TMon.step]; split <;> first | rfl | exact hcl
+        rw [this] at hc; cases hc
+    have e := ih hprev
+    show ((runT t ((List.range n).map f)).step (f n)).l = (runF t.l (fun i => (f i).proj) n).step1 ((f n).proj)
+    rw [← e]
+    cases hf : f n with
+    | op o =>
+      simp only [TMon.step, hprev, Bool.false_and, Bool.false_eq_true, if_false, TOp.proj]
+    | timeout x =>
+      rw [hf] at hc
+      simp only [TMon.step] at hc ⊢
+      split
+      · rename_i h; simp only [h, if_true] at hc; cases hc
+      · rfl
+
+def freshT (ra rb : Bool) (ga gb : Option Nat) : TMon := { l := freshLink ra rb ga gb }
+
+/-- **Safety with the idle timeout present** (`C18_full` for the timed link): from two fresh ends,
+under every schedule of `Send | Poll | Deliver | Tick | Fetch` and timeout checks at both ends -
+after the timeout of one end has fired the session is closed: the transport operations
+(`Poll`, `Deliver`) are no longer executed, the applications may still `Send` / `Fetch` - what has
+been fetched at one end is a prefix of what was submitted at the other, byte-identical, and the
+windows are respected. ("Exactly once, in order - or the session fails cleanly": a closed session
+delivers nothing that was not submitted and nothing twice.) -/
+theorem in_order_once_timed (ra rb : Bool) (ga gb : Option Nat) (tops : List TOp) (hw : WfTSched tops)
+    (y : Side) (k : Nat) (b : List Nat) (c : Nat)
+    (hk : ((runT (freshT ra rb ga gb) tops).l.get y).fetched[k]? = some (b, c)) :
+    ∃ full, ((runT (freshT ra rb ga gb) tops).l.get y.other).submitted[k]? = some full ∧ b = full.take c := by
+  rw [runT_link] at hk ⊢
+  exact in_order_once_fresh ra rb ga gb _ (executed_wf hw _) y k b c hk
+
+theorem window_respected_timed (ra rb : Bool) (ga gb : Option Nat) (tops : List TOp) (hw : WfTSched tops)
+    (hest : (runT (freshT ra rb ga gb) tops).l.a.e.s.established = true) (x : Side) :
+    let l := (runT (freshT ra rb ga gb) tops).l
+    (l.inq x.other).length ≤ (l.get x.other).e.s.recv.level ∧
+    (l.inq x.other).length + (l.get x.other).e.s.recv.ackLevel ≤
+      (l.get x).e.s.windowSize - (l.get x).e.s.send.level ∧
+    (l.get x).e.s.windowSize - (l.get x).e.s.send.level ≤ (l.get x.other).e.s.windowSize := by
+  rw [runT_link] at hest ⊢
+  exact window_respected ra rb ga gb _ (executed_wf hw _) hest x
+
+/-- **Liveness with the idle timeout present**: from two fresh ends, after any timed schedule
+`tops`, for every message accepted by `send` at `x` and every continuation `f` whose projection
+(timeout checks erased) is fair in the sense of `C18_live`: the message is eventually fetched at the
+other end, **or the session is eventually closed by the idle timeout**.  (Without further
+assumptions on the schedule the second case is real: a schedule that lets the clock run while
+segments are in flight or messages unfetched; under timely schedules it is not: `C18_live_timely`.) -/
+theorem C18_live_timed (ra rb : Bool) (ga gb : Option Nat) (tops : List TOp) (f : Nat → TOp)
+    (hw : WfTSched tops) (hwf : ∀ i, WfOp (f i).proj)
+    (hdel : ∀ y i, ∃ j ≥ i, (f j).proj = .deliver y)
+    (htp : ∀ y i, ∃ j ≥ i, (f j).proj = .tick 15 ∧ (f (j + 1)).proj = .poll y)
+    (hfet : ∀ y i, ∃ j ≥ i, (f j).proj = .fetch y 1232)
+    (x : Side) (k : Nat) (hk : k < ((runT (freshT ra rb ga gb) tops).l.get x).submitted.length) :
+    ∃ n, k < ((runT (freshT ra rb ga gb) (tops ++ (List.range n).map f)).l.get x.other).fetched.length ∨
+      (runT (freshT ra rb ga gb) (tops ++ (List.range n).map f)).closed = true := by
+  by_cases hc : ∃ n, (runT (freshT ra rb ga gb) (tops ++ (List.range n).map f)).closed = true
+  · obtain ⟨n, hn⟩ := hc
+    exact ⟨n, .inr hn⟩
+  · have hopen : ∀ n, (runT (runT (freshT ra rb ga gb) tops) ((List.range n).map f)).closed = false := by
+      intro n
+      cases h : (runT (runT (freshT ra rb ga gb) tops) ((List.range n).map f)).closed with
+      | false => rfl
+      | true => exact absurd ⟨n, by rw [runT_append]; exact h⟩ hc
+    have hlive := C18_live_holds ra rb ga gb (executed (freshT ra rb ga gb) tops) (fun i => (f i).proj)
+      (executed_wf hw _) hwf hdel htp hfet x k (by rw [runT_link] at hk; exact hk)
+    obtain ⟨n, hn⟩ := hlive
+    refine ⟨n, .inl ?_⟩
+    rw [runT_append, runT_open f _ n (hopen n), runT_link]
+    rw [runLink_append, runLink_range] at hn
+    exact hn
+
+
+/-- **`timed_run`**: along every timely schedule from a synchronised state satisfying the time-stamp
+invariant (window ≥ 2), the invariants are preserved. -/
+theorem timed_run {W M : Nat} (hw2 : 2 ≤ W) (ops : List Op) : ∀ (l : LMon), Timed W M l → WfSched ops →
+    TimelyFrom l ops → Timed W M (runLink l ops) := by
+  induction ops with
+  | nil => intro l h _ _; exact h
+  | cons op ops ih =>
+    intro l h hw ht
+    rw [runLink_cons]
+    exact ih _ (timed_step1 h hw2 (hw op List.mem_cons_self) ht.1)
+      (fun o ho => hw o (List.mem_cons_of_mem _ ho)) ht.2
+
+/-- **`timeout_never_fires`**: in every state reached by a timely schedule from a `Timed` state
+(window ≥ 2) the idle timeout of either end (`Btp::timeout()`) answers `false`, however long the
+link is idle: the peer's 15 s acknowledgement timer fires first. -/
+theorem timeout_never_fires {W M : Nat} (hw2 : 2 ≤ W) (l0 : LMon) (h0 : Timed W M l0) (ops : List Op)
+    (hw : WfSched ops) (ht : TimelyFrom l0 ops) (x : Side) :
+    ((runLink l0 ops).get x).e.timeout (runLink l0 ops).now = false :=
+  timeout_never (timed_run hw2 ops l0 h0 hw ht) x
+
+/-- **`never_closed`** (timed link, whole run): start from an open timed link whose state satisfies
+`Timed` (e.g. right after the handshake, `timed_after_handshake`) and run any schedule of
+operations and timeout checks whose executed link operations are timely: the session is never
+closed (and `Timed` still holds). -/
+theorem never_closed {W M : Nat} (hw2 : 2 ≤ W) (tops : List TOp) : ∀ (t : TMon), t.closed = false →
+    Timed W M t.l → WfTSched tops → TimelyFrom t.l (executed t tops) →
+    (runT t tops).closed = false ∧ Timed W M (runT t tops).l := by
+  induction tops with
+  | nil => intro t hc ht _ _; exact ⟨hc, ht⟩
+  | cons o os ih =>
+    intro t hc ht hw htl
+    have hw' : WfTSched os := fun o' ho => hw o' (List.mem_cons_of_mem _ ho)
+    cases o with
+    | op o =>
+      have hstep : t.step (.op o) = { t with l := t.l.step1 o } := by
+        simp only [TMon.step, hc, Bool.false_and, Bool.false_eq_true, if_false]
+      simp only [executed, hc, Bool.false_and, Bool.false_eq_true, if_false] at htl
+      rw [hstep] at htl
+      have ht' : Timed W M (t.l.step1 o) := timed_step1 ht hw2 (hw o List.mem_cons_self) htl.1
+      simp only [runT]
+      rw [hstep]
+      exact ih { t with l := t.l.step1 o } hc ht' hw' htl.2
+    | timeout x =>
+      have hf : (t.l.get x).e.timeout t.l.now = false := timeout_never ht x
+      have hstep : t.step (.timeout x) = t := by simp only [TMon.step, hf, Bool.false_eq_true, if_false]
+      simp only [executed] at htl
+      rw [hstep] at htl
+      simp only [runT]
+      rw [hstep]
+      exact ih t hc ht hw' htl
+
+/-- **`C18_live_timely`** (liveness with the idle timeout present and no "or closed" disjunct): from
+an open timed link in a `Timed` state (window ≥ 3), under every continuation `f` of operations and
+timeout checks whose projection is fair (`C18_live`) and whose executed operations are timely, every
+message accepted by `send` at `x` is eventually fetched at the other end, and the session is still
+open then.  (Joint satisfiability of "fair" and "timely" for an infinite schedule depends on the
+state - enough delivery / fetch / poll rounds before every tick - and is shown on finite prefixes
+only: 40 periods of the fair schedule `timelyRR` (`timelyRR_fair`) from the handshake state; the
+schedule `roundRobin` of the `C18_live` examples is fair but not timely.) -/
+theorem C18_live_timely {W M : Nat} (hw3 : 3 ≤ W) (t : TMon) (hc : t.closed = false) (ht : Timed W M t.l)
+    (f : Nat → TOp) (hwf : ∀ i, WfOp (f i).proj)
+    (hdel : ∀ y i, ∃ j ≥ i, (f j).proj = .deliver y)
+    (htp : ∀ y i, ∃ j ≥ i, (f j).proj = .tick 15 ∧ (f (j + 1)).proj = .poll y)
+    (hfet : ∀ y i, ∃ j ≥ i, (f j).proj = .fetch y 1232)
+    (htl : ∀ n, TimelyFrom t.l (executed t ((List.range n).map f)))
+    (x : Side) (k : Nat) (hk : k < (t.l.get x).submitted.length) :
+    ∃ n, k < ((runT t ((List.range n).map f)).l.get x.other).fetched.length ∧
+      (runT t ((List.range n).map f)).closed = false := by
+  have hwT : ∀ n, WfTSched ((List.range n).map f) := by
+    intro n o ho
+    obtain ⟨i, _, hi⟩ := List.mem_map.mp ho
+    have := hwf i
+    rw [hi] at this; exact this
+  have hopen : ∀ n, (runT t ((List.range n).map f)).closed = false := fun n =>
+    (never_closed (by omega) _ t hc ht (hwT n) (htl n)).1
+  have hfair : Fair (fun i => (f i).proj) :=
+    ⟨hwf, fun y i => by obtain ⟨j, h1, h2⟩ := hdel y i; exact ⟨j, h1, h2⟩,
+      fun y i => by obtain ⟨j, h1, h2⟩ := htp y i; exact ⟨j, h1, h2⟩,
+      fun y i => by obtain ⟨j, h1, h2⟩ := hfet y i; exact ⟨j, h1, h2⟩⟩
+  obtain ⟨n, hn⟩ := sync_delivers hw3 x k (fun i => (f i).proj) t.l hfair ht.linv ht.sync hk
+  refine ⟨n, ?_, hopen n⟩
+  rw [runT_open f t n (hopen n)]
+  exact hn
+
+/-- the handshake between two fresh ends, whatever the GATT MTUs and negotiation modes, leads to the
+explicit state `hsDone` -/
+theorem handshake_run (ra rb : Bool) (ga gb : Option Nat) :
+    runLink (freshLink ra rb ga gb) handshakeOps = hsDone ra rb ga gb := by
+  show runLink (fresh2 ra rb ga gb) [.poll .a, .deliver .b, .poll .b, .deliver .a] = _
+  rw [runLink_cons, step1_ok (hs_step1 ra rb ga gb), runLink_cons, step1_ok (hs_step2 ra rb ga gb),
+    runLink_cons, step1_ok (hs_step3 ra rb ga gb), runLink_cons, step1_ok (hs_step4 ra rb ga gb)]
+  rfl
+
+/-- **`timed_after_handshake`** (non-vacuity of `Timed`, for EVERY configuration two rs-matter ends
+can negotiate): the state right after an (instantaneous) handshake between two fresh ends - any
+GATT MTUs, strict / relaxed negotiation - satisfies the representation, cross-end and time-stamp
+invariants with the negotiated window and segment size. -/
+theorem timed_after_handshake (ra rb : Bool) (ga gb : Option Nat) :
+    Timed (negWin ga gb rb) (negMtu ga gb rb) (runLink (freshLink ra rb ga gb) handshakeOps) := by
+  have hwf : WfSched handshakeOps := by
+    intro op h; simp [handshakeOps] at h
+    rcases h with rfl | rfl | rfl | rfl <;> trivial
+  obtain ⟨hl, hp⟩ := phase_run ra rb ga gb handshakeOps hwf
+  have hW := (negPar ga gb rb).w1
+  rw [handshake_run] at hl hp ⊢
+  have hest : (hsDone ra rb ga gb).a.e.s.established = true := rfl
+  have hsync : Sync (negWin ga gb rb) (negMtu ga gb rb) (hsDone ra rb ga gb) := by
+    cases hp with
+    | p0 _ sa => rw [sa] at hest; cases hest
+    | p1 _ sa => rw [sa] at hest; cases hest
+    | p2 _ sa => rw [sa] at hest; cases hest
+    | p3 _ h => rw [h.sa] at hest; cases hest
+    | sync h => exact h
+  refine ⟨hl, hsync, fun x => ?_⟩
+  cases x
+  · refine ⟨?_, ?_, ?_, ?_, ?_, ?_⟩
+    · intro h; exact absurd h (Nat.lt_irrefl _)
+    · intro h; cases h
+    · intro r hr
+      have : r = 0 := (Option.some.inj hr).symm
+      omega
+    · intro hne; exact absurd rfl hne
+    · intro hal; exact absurd hal (Nat.lt_irrefl _)
+    · intro s hs; cases hs
+  · refine ⟨?_, ?_, ?_, ?_, ?_, ?_⟩
+    · intro _; rfl
+    · intro _; show negWin ga gb rb - 1 < negWin ga gb rb; omega
+    · intro r hr; cases hr
+    · intro hne; exact absurd rfl hne
+    · intro _ r s hr hs
+      have h1 : r = 0 := (Option.some.inj hr).symm
+      have h2 : s = 0 := (Option.some.inj hs).symm
+      omega
+    · intro s hs
+      have h2 : s = 0 := (Option.some.inj hs).symm
+      show 0 ≤ _; omega
+
+/-- a timely schedule after the handshake: one message `a → b`, then three rounds of the
+acknowledgement ping-pong, the clock advancing by 15 s only when everything has settled -/
+def pingPongOps : List Op :=
+  [.send .a [1, 2, 3], .poll .a, .deliver .b, .fetch .b 100, .poll .b, .poll .a,
+   .tick 15, .poll .b, .deliver .a, .poll .a, .poll .b,
+   .tick 15, .poll .a, .deliver .b, .poll .b, .poll .a,
+   .tick 15, .poll .b, .deliver .a, .poll .a, .poll .b,
+   .tick 14, .poll .a, .poll .b]
+
+/-- Non-vacuity of `TimelyFrom` / `timeout_never_fires`: `pingPongOps` is timely; the clock reaches
+59 s, three stand-alone acknowledgements have crossed, `b`'s idle timer (last restarted at 45 s) runs,
+and neither timeout fires. -/
+example :
+    TimelyFrom (runLink (freshLink false false none none) handshakeOps) pingPongOps ∧
+    (runLink (freshLink false false none none) (handshakeOps ++ pingPongOps)).now = 59 ∧
+    (runLink (freshLink false false none none) (handshakeOps ++ pingPongOps)).b.fetched = [([1, 2, 3], 100)] ∧
+    (runLink (freshLink false false none none) (handshakeOps ++ pingPongOps)).b.e.s.send.sentAt = some 45 ∧
+    (runLink (freshLink false false none none) (handshakeOps ++ pingPongOps)).a.e.timeout 59 = false ∧
+    (runLink (freshLink false false none none) (handshakeOps ++ pingPongOps)).b.e.timeout 59 = false :=
+  ⟨timely_of_B _ _ (by decide), by decide, by decide, by decide, by decide, by decide⟩
+
+/-- nothing is submitted for 20 s after the handshake: the initiator's stand-alone acknowledgement
+of the handshake response goes out when its 15 s timer fires; then the first message -/
+def lateOps1 : List Op :=
+  [.tick 15, .poll .a, .deliver .b, .poll .b, .poll .a, .tick 5,
+   .send .a [1, 2, 3], .poll .a, .deliver .b, .fetch .b 100, .poll .b, .poll .a, .tick 11]
+
+def lateOps2 : List Op := [.send .a [4, 5], .poll .a, .deliver .b, .fetch .b 100]
+
+/-- handshake (4 operations), `lateOps1`, the timeout tasks of both ends, `lateOps2` -/
+def lateTops : List TOp :=
+  (handshakeOps ++ lateOps1).map TOp.op ++ [.timeout .a, .timeout .b] ++ lateOps2.map TOp.op
+
+/-- **`late_first_message_example`** (the former `idle_close_example`: on the code before the fix
+`C18-handshake-response-never-acked` this history closed the session at 31 s - the responder's
+handshake response, sent at 0 s, was never acknowledged - and the second message was accepted by
+`send` and never delivered; `corpus/C18/idle-timeout.txt` case 3).  Now: the initiator acknowledges
+the handshake response when its 15 s timer fires, the responder's idle timer stops, the first
+message (submitted at 20 s) and the second (at 31 s) are delivered, no timeout fires.  The schedule
+is timely. -/
+theorem late_first_message_example :
+    (runT (freshT false false none none) lateTops).closed = false ∧
+    (runT (freshT false false none none) lateTops).l.b.fetched = [([1, 2, 3], 100), ([4, 5], 100)] ∧
+    (runT (freshT false false none none) lateTops).l.a.submitted = [[1, 2, 3], [4, 5]] ∧
+    (runT (freshT false false none none) lateTops).l.now = 31 ∧
+    TimelyFrom (runLink (freshLink false false none none) handshakeOps) lateOps1 :=
+  ⟨by decide, by decide, by decide, by decide, timely_of_B _ _ (by decide)⟩
+
+/-- one round in which everything that can move does: both pumps, both queues, both applications -/
+def settleOps : List Op := [.poll .a, .deliver .b, .poll .b, .deliver .a, .fetch .a 1232, .fetch .b 1232]
+
+/-- one period (28 operations) of the fair AND timely schedule: the 15 s timer fires and `a`'s pump
+runs, two settle rounds, the timer fires and `b`'s pump runs, two settle rounds -/
+def timelyPeriod : List Op :=
+  [.tick 15, .poll .a] ++ settleOps ++ settleOps ++ [.tick 15, .poll .b] ++ settleOps ++ settleOps
+
+/-- its infinite repetition -/
+def timelyRR (i : Nat) : Op := timelyPeriod.getD (i % 28) (.tick 0)
+
+def notSend : Op → Bool
+  | .send _ _ => false
+  | _ => true
+
+theorem wf_of_notSend {o : Op} (h : notSend o = true) : WfOp o := by
+  cases o <;> first | trivial | cases h
+
+theorem timelyRR_fair : Fair timelyRR := by
+  have key : ∀ (i c : Nat), c < 28 → timelyRR (28 * i + c) = timelyRR c := by
+    intro i c hc
+    simp only [timelyRR, Nat.mul_add_mod, Nat.mod_eq_of_lt hc]
+  refine ⟨?_, ?_, ?_, ?_⟩
+  · intro i
+    have h : ∀ c, c < 28 → notSend (timelyPeriod.getD c (.tick 0)) = true := by decide
+    exact wf_of_notSend (h _ (Nat.mod_lt _ (by omega)))
+  · intro y i
+    cases y
+    · exact ⟨28 * i + 5, by omega, (key i 5 (by omega)).trans rfl⟩
+    · exact ⟨28 * i + 3, by omega, (key i 3 (by omega)).trans rfl⟩
+  · intro y i
+    cases y
+    · exact ⟨28 * i + 0, by omega, (key i 0 (by omega)).trans rfl, (key i 1 (by omega)).trans rfl⟩
+    · exact ⟨28 * i + 14, by omega, (key i 14 (by omega)).trans rfl, (key i 15 (by omega)).trans rfl⟩
+  · intro y i
+    cases y
+    · exact ⟨28 * i + 6, by omega, (key i 6 (by omega)).trans rfl⟩
+    · exact ⟨28 * i + 7, by omega, (key i 7 (by omega)).trans rfl⟩
+
+/-- the first `28 n` operations of `timelyRR` are `n` periods -/
+example : (List.range 56).map timelyRR = timelyPeriod ++ timelyPeriod := by decide
+
+set_option maxRecDepth 100000 in
+/-- **`Fair` and `TimelyFrom` are jointly satisfiable**, as far as shown: the first 40 periods
+(1200 s of model time, 80 stand-alone acknowledgements) of the fair schedule `timelyRR`, run from the
+state right after the handshake, are timely - the link is quiescent at every `tick`, the
+acknowledgement ping-pong settles within the two settle rounds. Timeliness of the INFINITE
+repetition (a periodicity argument on the state up to sequence numbers and clock) is not proved:
+finite prefixes only. -/
+example : TimelyFrom (runLink (freshLink false false none none) handshakeOps) ((List.range (28 * 40)).map timelyRR) :=
+  timely_of_B _ _ (by decide)
+
+/-- `roundRobin` (the fair schedule of the `C18_live` examples) is fair but NOT timely: its second
+`tick 15` comes while the acknowledgement emitted by `poll a` is still in flight -/
+example : timelyB (runLink (freshLink false false none none) handshakeOps) ((List.range 16).map roundRobin) = false := by
+  decide
+
+/-- **Windows 1 and 2 never come to rest** (only with a peer that asks for such a window; two
+rs-matter ends negotiate ≥ 6): `is_ack_due` is true whenever `recv.level ≤ 1`, which with a window
+of 1 or 2 holds after EVERY accepted segment, stand-alone acknowledgements included - the two ends
+exchange stand-alone acknowledgements endlessly at zero elapsed time (6 poll / deliver rounds without
+a tick: sequence numbers 5 / 6, clock 0, never `Quiescent`), whereas window 3 stays quiet. So
+`TimelyFrom` admits no `tick` at all from these states: `timeout_never_fires` / `never_closed`
+(stated for window ≥ 2) have time content only for window ≥ 3. -/
+def pingRound : List Op := [.poll .a, .deliver .b, .poll .b, .deliver .a]
+
+example :
+    (runLink (smallWindowLink 1) (pingRound ++ pingRound ++ pingRound ++ pingRound ++ pingRound ++ pingRound)).a.e.s.send.lastSent = 5 ∧
+    (runLink (smallWindowLink 2) (pingRound ++ pingRound ++ pingRound ++ pingRound ++ pingRound ++ pingRound)).b.e.s.send.lastSent = 6 ∧
+    (runLink (smallWindowLink 2) (pingRound ++ pingRound ++ pingRound ++ pingRound ++ pingRound ++ pingRound)).now = 0 ∧
+    quiescentB (runLink (smallWindowLink 1) (pingRound ++ pingRound ++ pingRound ++ pingRound ++ pingRound ++ pingRound)) = false ∧
+    quiescentB (runLink (smallWindowLink 2) (pingRound ++ pingRound ++ pingRound ++ pingRound ++ pingRound ++ pingRound)) = false ∧
+    (runLink (smallWindowLink 3) (pingRound ++ pingRound ++ pingRound ++ pingRound ++ pingRound ++ pingRound)).a.e.s.send.lastSent = 255 ∧
+    quiescentB (runLink (smallWindowLink 3) (pingRound ++ pingRound ++ pingRound ++ pingRound ++ pingRound ++ pingRound)) = true := by
+  decide
+
+/-! ## The ring buffer: the real (checked) index arithmetic never panics and refines the byte queue of the session model -/
 
 /-- **`RingBuf<N>` (model of the real `start` / `end` / `non_empty` arithmetic of
-`utils/storage/ringbuf.rs`, `Model/BtpRing.lean`) refines the bounded byte FIFO**: for every
-capacity `N > 0` and every sequence of `push` (any length, dropping the oldest bytes on overflow) /
-`pop` / `push_byte` / `pop_byte` / `clear`, the bytes handed out and `len`, `free`, `is_full`,
-`is_empty` are those of the byte queue, however often the indices wrap. -/
-theorem ringbuf_refines_queue (n : Nat) (hn : 0 < n) (ops : List RingOp) :
-    Ring.run (Ring.new n) ops = Ring.qRun n [] ops :=
-  Ring.ring_refines_queue n hn ops
+`utils/storage/ringbuf.rs`, `Model/BtpRing.lean`, with a panic outcome at every `usize` `-` / `+`,
+index, slice range and `copy_from_slice`) refines the bounded byte FIFO — and never panics**: for
+every capacity `0 < N ≤ 2^63` and every sequence of `push` (any length, dropping the oldest bytes on
+overflow) / `pop` / `push_byte` / `pop_byte` / `clear`, every call returns normally (`.ok`), the bytes
+handed out and `len`, `free`, `is_full`, `is_empty` are those of the byte queue, however often the
+indices wrap. `RingOp.Wf` (slice lengths `< 2^64`) is what the Rust type system guarantees of any
+`&[u8]`; `2 * N ≤ 2^64` holds for every array type (`[u8; N]` is at most `isize::MAX` bytes). -/
+theorem ringbuf_refines_queue (n : Nat) (hn : 0 < n) (hs : 2 * n ≤ USIZE) (ops : List RingOp)
+    (hw : ∀ op ∈ ops, op.Wf) :
+    Ring.run (Ring.new n) ops = .ok (Ring.qRun n [] ops) :=
+  Ring.ring_refines_queue n hn hs ops hw
+
+/-- **No run of the ring buffer panics or hangs** (corollary of `ringbuf_refines_queue`, stated on
+its own): no arithmetic overflow, no index / slice-range panic, no `copy_from_slice` length
+mismatch, no endless loop, for any operation list from `RingBuf::<N>::new()`. -/
+theorem ring_never_panics (n : Nat) (hn : 0 < n) (hs : 2 * n ≤ USIZE) (ops : List RingOp)
+    (hw : ∀ op ∈ ops, op.Wf) (e : RingFail) : Ring.run (Ring.new n) ops ≠ .error e := by
+  rw [ringbuf_refines_queue n hn hs ops hw]; intro h; cases h
+
+/-- … and per call: on every ring reachable from `RingBuf::<N>::new()` each public method, with any
+data / any output buffer length, and each observer returns normally. -/
+theorem ring_op_never_panics (n : Nat) (hn : 0 < n) (hs : 2 * n ≤ USIZE) (r : Ring) (h : Ring.Reach n r) :
+    (∀ d, d.length < USIZE → ∃ r2 l, r.push d = .ok (r2, l)) ∧
+    (∀ k, k < USIZE → ∃ r2 out, r.pop k = .ok (r2, out)) ∧
+    (∀ b, ∃ r2 l, r.pushByte b = .ok (r2, l)) ∧
+    (∃ r2 o, r.popByte = .ok (r2, o)) ∧
+    (∃ l, r.len = .ok l) ∧ (∃ f, r.free = .ok f) ∧
+    (∀ op, op.Wf → ∃ r2 o, r.step op = .ok (r2, o)) :=
+  Ring.ring_never_panics hn hs h
+
+/-- Non-vacuity of the hypotheses of `ringbuf_refines_queue` / `ring_never_panics` /
+`ring_op_never_panics`: capacity 4, an overflowing push and an over-long pop are well-formed
+operations, and the ring after them (indices wrapped) is reachable. -/
+example : (0 < 4 ∧ 2 * 4 ≤ USIZE) ∧ (∀ op ∈ [RingOp.push [1, 2, 3, 4, 5, 6], .pop 9, .pushByte 7], op.Wf) := by
+  refine ⟨by unfold USIZE; omega, ?_⟩
+  intro op h
+  simp only [List.mem_cons, List.not_mem_nil, or_false] at h
+  rcases h with rfl | rfl | rfl <;> simp [RingOp.Wf, USIZE]
+
+example : Ring.Reach 4 { n := 4, buf := [5, 6, 3, 4], start := 1, end_ := 2, nonEmpty := true } :=
+  have h1 : Ring.Reach 4 { n := 4, buf := [5, 6, 3, 4], start := 2, end_ := 2, nonEmpty := true } :=
+    Ring.Reach.step (o := ⟨[], 4, 0, true, false⟩) (.push [1, 2, 3, 4, 5, 6]) Ring.Reach.new
+      (by simp [RingOp.Wf, USIZE]) rfl
+  Ring.Reach.step (o := ⟨[3, 4, 5], 1, 3, false, false⟩) (.pop 3) h1 (by simp [RingOp.Wf, USIZE]) rfl
+
+/-- the capacity BTP uses (`RingBuf<MAX_MESSAGE_SIZE>`, a constant: session.rs:184/191) satisfies
+the hypotheses of the ring theorems -/
+theorem session_ring_capacity : 0 < maxMessageSize ∧ 2 * maxMessageSize ≤ USIZE := by
+  rw [maxMessageSize_eq]; unfold USIZE; omega
+
+/-- `N = 0` (not used by BTP) is outside the theorems, and really misbehaves: `push_byte` panics
+(index 0 of an empty `Vec`), `push` of a non-empty slice neither panics nor returns (each
+iteration copies 0 bytes), everything else works on the always-empty ring. -/
+theorem ring_zero_capacity (b : Nat) (d : List Nat) (hd : d ≠ []) :
+    (Ring.new 0).pushByte b = .error (.panic "push_byte: buf[end]") ∧
+    (Ring.new 0).push d = .error .hang ∧
+    (Ring.new 0).push [] = .ok (Ring.new 0, 0) ∧ (Ring.new 0).free = .ok 0 :=
+  ⟨Ring.zero_cap_pushByte_panics b, Ring.zero_cap_push_hangs d hd, rfl, rfl⟩
 
 /-- the byte-list ring of the session model (`Model/Btp.lean`) *is* that byte queue with
 `N = MAX_MESSAGE_SIZE` … -/
@@ -657,27 +1407,131 @@ theorem session_ring_is_queue (buf data : List Nat) :
   ⟨rfl, rfl⟩
 
 /-- … so a real `RingBuf<MAX_MESSAGE_SIZE>` that represents the session's byte list `buf` behaves
-exactly as the session model assumes: `push` gives `ringPush`, `free()` gives `ringFree`, `pop(k)`
-hands out `buf.take k` and leaves `buf.drop k` (the two length bytes, the payload and the skipped
-rest of `RecvWindow::fetch_message` are such pops). -/
-theorem session_ring_ops (r : Ring) (buf : List Nat) (h : Ring.Rep maxMessageSize r buf) (data : List Nat) (k : Nat) :
-    Ring.Rep maxMessageSize (r.push data) (ringPush buf data) ∧
-    r.free = ringFree buf ∧
-    (r.pop k).2 = buf.take k ∧ Ring.Rep maxMessageSize (r.pop k).1 (buf.drop k) := by
+exactly as the session model assumes, **without panicking**: `push` gives `ringPush` (and returns
+its length), `free()` gives `ringFree`, `len()` the length, `pop(k)` hands out `buf.take k` and leaves
+`buf.drop k`, `pop_byte()` hands out the first byte (if any), `clear()` empties it. Per operation;
+the lift to whole sequences of `RecvWindow` buffer operations is `session_buffer_on_ring` below. -/
+theorem session_ring_ops (r : Ring) (buf : List Nat) (h : Ring.Rep maxMessageSize r buf)
+    (data : List Nat) (hd : data.length < USIZE) (k : Nat) (hk : k < USIZE) :
+    (∃ r2, r.push data = .ok (r2, (ringPush buf data).length) ∧ Ring.Rep maxMessageSize r2 (ringPush buf data)) ∧
+    r.free = .ok (ringFree buf) ∧ r.len = .ok buf.length ∧
+    (∃ r2, r.pop k = .ok (r2, buf.take k) ∧ Ring.Rep maxMessageSize r2 (buf.drop k)) ∧
+    (∃ r2, r.popByte = .ok (r2, buf.head?) ∧ Ring.Rep maxMessageSize r2 (buf.drop 1)) ∧
+    Ring.Rep maxMessageSize r.clear [] := by
   obtain ⟨hi, hn, hq⟩ := h
-  obtain ⟨a, b, c⟩ := Ring.push_spec hi data
-  obtain ⟨d, e, f, g⟩ := Ring.pop_spec hi k
-  refine ⟨⟨a, b.trans hn, by rw [c, hn, hq]; rfl⟩, ?_, by rw [f, hq], ⟨d, e.trans hn, by rw [g, hq]⟩⟩
-  unfold Ring.free ringFree
-  rw [hn, ← hq, Ring.contents_length]
+  obtain ⟨r2, a, b, c, d⟩ := Ring.push_spec hi data hd
+  obtain ⟨r3, e, f, g, i⟩ := Ring.pop_spec hi k hk
+  obtain ⟨r4, j, l, m, o⟩ := Ring.popByte_spec hi
+  obtain ⟨p, q, s⟩ := Ring.clear_spec hi
+  have hd2 : r2.contents = ringPush buf data := by rw [d, hn, hq]; rfl
+  refine ⟨⟨r2, ?_, b, c.trans hn, hd2⟩, ?_, ?_, ⟨r3, by rw [e, hq], f, g.trans hn, by rw [i, hq]⟩,
+    ⟨r4, by rw [j, hq], l, m.trans hn, by rw [o, hq]⟩, ⟨p, q.trans hn, s⟩⟩
+  · rw [a, ← hd2, Ring.contents_length]
+  · rw [Ring.free_ok hi]; unfold ringFree; rw [hn, ← hq, Ring.contents_length]
+  · rw [Ring.len_ok hi, ← hq, Ring.contents_length]
 
 /-- Non-vacuity of `session_ring_ops`: the fresh ring represents the empty byte list. -/
-example : Ring.Rep maxMessageSize (Ring.new maxMessageSize) [] := Ring.rep_new _ (by decide)
+example : Ring.Rep maxMessageSize (Ring.new maxMessageSize) [] :=
+  Ring.rep_new _ session_ring_capacity.1 session_ring_capacity.2
 
-/-- Non-vacuity / a wrap-around sample: capacity 4, push 3, pop 2, push 3 (wraps), pop 4. -/
+/-- Non-vacuity / a wrap-around sample: capacity 4, push 3, pop 2, push 3 (wraps, ring full), pop 4. -/
 example : Ring.run (Ring.new 4) [.push [1, 2, 3], .pop 2, .push [4, 5, 6], .pop 4] =
-    [⟨[], 3, 1, false, false⟩, ⟨[1, 2], 1, 3, false, false⟩, ⟨[], 4, 0, true, false⟩,
-     ⟨[3, 4, 5, 6], 0, 4, false, true⟩] := by decide
+    .ok [⟨[], 3, 1, false, false⟩, ⟨[1, 2], 1, 3, false, false⟩, ⟨[], 4, 0, true, false⟩,
+     ⟨[3, 4, 5, 6], 0, 4, false, true⟩] := rfl
+
+/-- an over-long push (9 bytes into capacity 4) keeps the newest 4 bytes and does not panic; a pop of
+more than is available (7 > 4) hands out what is there; then byte-wise operations across the wrap,
+`clear`, and `pop_byte` on the empty ring. -/
+example : Ring.run (Ring.new 4) [.push [1, 2, 3, 4, 5, 6, 7, 8, 9], .pop 7, .pushByte 1, .pushByte 2,
+      .push [3, 4, 5], .popByte, .clear, .popByte, .pop 0, .push []] =
+    .ok [⟨[], 4, 0, true, false⟩, ⟨[6, 7, 8, 9], 0, 4, false, true⟩, ⟨[], 1, 3, false, false⟩,
+      ⟨[], 2, 2, false, false⟩, ⟨[], 4, 0, true, false⟩, ⟨[2], 3, 1, false, false⟩,
+      ⟨[], 0, 4, false, true⟩, ⟨[], 0, 4, false, true⟩, ⟨[], 0, 4, false, true⟩,
+      ⟨[], 0, 4, false, true⟩] := rfl
+
+/-- the panic outcome is live in the model (the theorems are not vacuous because the model could
+never fail): a ring whose indices violate the invariant panics — `end = 5` in a 4-byte storage:
+`buf.len() - end` underflows — and so does `RingBuf<0>::push_byte`. -/
+example : ({ n := 4, buf := [0, 0, 0, 0], start := 0, end_ := 5, nonEmpty := true } : Ring).push [1] =
+    .error (.panic "push: buf.len() - end") := rfl
+/-- (contrast: a ring satisfying the invariant - a pop across the wrap - answers `.ok`) -/
+example : ({ n := 4, buf := [0, 0, 0, 0], start := 3, end_ := 1, nonEmpty := true } : Ring).pop 3 =
+    .ok ({ n := 4, buf := [0, 0, 0, 0], start := 1, end_ := 1, nonEmpty := false }, [0, 0]) := rfl
+/-- a storage shorter than the indices assume: the slice range panics -/
+example : ({ n := 4, buf := [0, 0], start := 0, end_ := 3, nonEmpty := true } : Ring).pop 3 =
+    .error (.panic "pop: buf[start..start + len]") := rfl
+example : Ring.run (Ring.new 0) [.pop 3, .pushByte 1] = .error (.panic "push_byte: buf[end]") := rfl
+example : Ring.run (Ring.new 0) [.push [1]] = .error .hang := rfl
+
+/-! ### The receive window's buffer calls, as a whole run, over the checked ring -/
+
+/-- **The session's receive buffer, run over the real ring** (lifts `session_ring_ops` from one
+operation to whole histories): take any sequence of the buffer calls `RecvWindow` makes —
+`accept`: `accept_incoming`'s `if self.buf.free() < prefix_len + payload.len() { Err }`, optional
+`push` of the two length bytes, `push(payload)` (session.rs:300-310); `fetch cap`:
+`fetch_message`'s two `pop_byte()`, `pop(&mut buf[..min(len, cap)])`, and `pop_byte()` for the
+truncated rest (session.rs:417-436); `reset`: `clear()`. Whenever the byte LIST of the session model
+can run the sequence (`qBufRun` with `N = MAX_MESSAGE_SIZE`, i.e. `ringFree` / `ringPush` /
+`lo :: hi :: rest`, `rest.take`, `rest.drop` exactly as in `Model/Btp.lean`, see
+`recv_accept_is_bufop`, `recv_fetch_is_bufop`), the checked `RingBuf<3166>` started from `new()` never
+panics and answers the same (refused / accepted / the fetched bytes). The session model itself
+still keeps the `List`; this theorem is what justifies it. -/
+theorem session_buffer_on_ring (ops : List BufOp) (hw : ∀ op ∈ ops, op.Wf) (outs : List BufOut)
+    (hq : qBufRun maxMessageSize [] ops = some outs) :
+    Ring.bufRun (Ring.new maxMessageSize) ops = .ok (some outs) :=
+  Ring.bufRun_refines maxMessageSize session_ring_capacity.1 session_ring_capacity.2 ops hw outs hq
+
+/-- the prefix argument of the buffer operation that `accept_incoming` performs for a segment -/
+def pfxOf (begun : Option Nat) : Option (List Nat) :=
+  if sduPrefix begun = [] then none else some (sduPrefix begun)
+
+theorem pfxOf_getD (begun : Option Nat) : (pfxOf begun).getD [] = sduPrefix begun := by
+  unfold pfxOf; split <;> simp [*]
+
+theorem recv_accept_is_bufop {r r2 : RecvWindow} {h : Hdr} {p : List Nat} {mtu now : Nat}
+    (hok : r.acceptIncoming h p mtu now = .ok r2) :
+    qBufStep maxMessageSize r.buf (.accept (pfxOf h.getMsgLen) p) = some (r2.buf, .accepted) := by
+  obtain ⟨_, _, _, _, _, _, _, hfree, hc⟩ := acceptIncoming_inv hok
+  obtain ⟨hb, _⟩ := commit_inv hc
+  have : ¬ maxMessageSize - r.buf.length < (sduPrefix h.getMsgLen).length + p.length := by
+    unfold ringFree at hfree; omega
+  simp only [qBufStep, pfxOf_getD, this, if_false, hb]
+  rfl
+
+theorem recv_fetch_is_bufop {r r2 : RecvWindow} {cap : Nat} {out : List Nat}
+    (hok : r.fetchMessage cap = .ok (r2, some out)) :
+    qBufStep maxMessageSize r.buf (.fetch cap) = some (r2.buf, .fetched out) := by
+  unfold RecvWindow.fetchMessage at hok
+  split at hok
+  · cases hok
+  · split at hok
+    · rename_i lo hi rest hbuf
+      simp only at hok
+      split at hok
+      · cases hok
+      · split at hok
+        · cases hok
+        · rename_i h1 h2
+          split at hok
+          · cases hok
+          · cases hok
+            simp only [hbuf, qBufStep]
+            rw [if_pos (by omega)]
+    · cases hok
+
+
+/-- Non-vacuity of `session_buffer_on_ring`: two segments of one 5-byte message (length prefix
+`05 00`), a refusal-free run, a truncating fetch (`cap = 3`: 3 bytes handed out, 2 drained with
+`pop_byte`), then an empty message list again. -/
+example : qBufRun maxMessageSize [] [.accept (some [5, 0]) [1, 2, 3], .accept none [4, 5], .fetch 3, .reset] =
+    some [.accepted, .accepted, .fetched [1, 2, 3], .cleared] := by decide
+example : ∀ op ∈ [BufOp.accept (some [5, 0]) [1, 2, 3], .accept none [4, 5], .fetch 3, .reset], op.Wf := by
+  intro op h
+  simp only [List.mem_cons, List.not_mem_nil, or_false] at h
+  rcases h with rfl | rfl | rfl | rfl <;> simp [BufOp.Wf, USIZE]
+example : Ring.bufRun (Ring.new 8) [.accept (some [5, 0]) [1, 2, 3], .accept none [4, 5], .accept none [6, 7],
+      .fetch 3, .accept (some [2, 0]) [8, 9], .fetch 9] =
+    .ok (some [.accepted, .accepted, .refused, .fetched [1, 2, 3], .accepted, .fetched [8, 9]]) := rfl
 
 /-! ## The full statement -/
 
